@@ -63,6 +63,7 @@ def run(tier):
     api_part(chk, thorough, exported)
     later_request_part(chk, thorough)
     overlapping_calls_part(chk, thorough)
+    huge_timeout_part(chk, thorough)
     chk.sample(dict(kind="script", cfg=items[len(items) // 2][0], script=items[len(items) // 2][2]))
     chk.sample(dict(kind="trace-events", events=rec.events[1:4]))
     chk.assumptions += ["loopback UDP preserves order and does not drop (single-threaded stepping)",
@@ -290,9 +291,53 @@ def later_request_part(chk, thorough):
                           (client, cn, sa, ra, c18.T, evs[0]["result"], evs[0]["elapsed_ms"]), dict(kind="later", client=client, cfgname=cn, pair=[sa, ra], runs=evs))
 
 
+def huge_timeout_part(chk, thorough):
+    """the wait goes on after a skipped datagram however long the timeout is: sessions with a timeout above 2^32 microseconds, one
+    foreign datagram, the matching reply half a second later - delivered (TraceTimeout.tla; three failing runs)"""
+    from checks import c18
+    std = scripts.std_cfgs()
+    for client in ("sync", "async"):
+        for cn in (("v2c",) if not thorough else ("v1", "v2c", "v3-md5")):
+            evs = []
+            for attempt in range(3):
+                r = c18.run_case(client, std[cn], (1,), 4, c18.TICK, reply="huge")
+                rec2 = trace.Recorder("c04-huge")
+                rec2.emit(c18.event(client, cn + "#huge", (1,), 4, *r))
+                v2 = trace.validate("TraceTimeout.tla", "TraceTimeout.cfg", rec2.close())
+                if attempt == 0:
+                    chk.add_tlc(v2["res"], "TraceTimeout(c04 huge timeout %s %s)" % (client, cn))
+                    chk.case(("huge-timeout", client, cn), nontrivial=True)
+                evs.append(rec2.events[-1])
+                if not v2["fails"] or r[0] == "NotRun":
+                    break
+                if r[0] == "DidNotReturn":
+                    evs = evs * 3
+                    break
+            else:
+                pass
+            if len(evs) >= 3:
+                chk.violation(dict(kind="huge-timeout", client=client, result=evs[0]["result"]),
+                              "%s %s, timeout %.1f s: a foreign datagram at 125 ms, the matching reply at 500 ms: %s after %d ms" % (client, cn, c18.HUGE_TIMEOUT_S, evs[0]["result"], evs[0]["elapsed_ms"]),
+                              dict(kind="huge", client=client, cfgname=cn, runs=evs))
+
+
 def replay(path):
     d = json.load(open(path))
     r = d["replay"]
+    if r.get("kind") == "huge":
+        from checks import c18
+        std = scripts.std_cfgs()
+        bad = 0
+        for _ in range(3):
+            x = c18.run_case(r["client"], std[r["cfgname"]], (1,), 4, c18.TICK, reply="huge")
+            rec2 = trace.Recorder("c04-huge-replay")
+            rec2.emit(c18.event(r["client"], r["cfgname"] + "#huge", (1,), 4, *x))
+            bad += 1 if trace.validate("TraceTimeout.tla", "TraceTimeout.cfg", rec2.close())["fails"] else 0
+        if bad == 3:
+            print("VIOLATION property=C04 replay=%s" % path)
+            return 1
+        print("replay: accepted")
+        return 0
     if r.get("kind") == "overlapping":
         std = scripts.std_cfgs()
         res = overlapping_calls(r["client"], std[r["cfgname"]], r["n"], r["order"])
